@@ -509,6 +509,18 @@ pub fn contexts() -> Vec<Context> {
         // two adjacent easy pieces between two hard ones (a run of literals interpreted by the VM)
         ("(?=)□□'(?=)", cat(vec![e(), h0(), h1(), e()])),
         ("(a)□□'\\1", cat(vec![grp(x()), h0(), h1(), Node::Backref(1)])),
+        // an atomic group directly around a conditional whose taken branch is hard and has a choice
+        ("()(?>(?(1)□\\1))ab", cat(vec![grp(Node::Empty), atomic(condg(1, cat(vec![h0(), Node::Backref(1)]), Node::Empty)), x(), y()])),
+        ("(a)?(?>(?(1)b|□(?=.)))□'", cat(vec![opt(grp(x())), atomic(condg(1, y(), cat(vec![h0(), la(Node::Dot)]))), h1()])),
+        // one delegated piece with groups and an anchor in a non-final alternative
+        ("(?>(□)$|(□))□'", cat(vec![atomic(alt(vec![cat(vec![grp(h0()), Node::Assert(A::End)]), grp(h0())])), h1()])),
+        ("(?=(□)$|(□))□'", cat(vec![la(alt(vec![cat(vec![grp(h0()), Node::Assert(A::End)]), grp(h0())])), h1()])),
+        ("(?>^(□)|(□'))□", cat(vec![atomic(alt(vec![cat(vec![Node::Assert(A::Start), grp(h0())]), grp(h1())])), h0()])),
+        // a reference to an outer, still open group from inside another nested capture group, in a loop
+        ("(?:((\\1)?□)□')+", plus(cat(vec![grp(cat(vec![opt(grp(Node::Backref(1))), h0()])), h1()]))),
+        // a look-behind whose body starts with a literal and goes on with a hard zero-width element
+        ("(?<=é\\B□)", lb(cat(vec![lit("é"), Node::Assert(A::NotWordB), h0()]))),
+        ("(?<=é(?=□)□)□'", cat(vec![lb(cat(vec![lit("é"), la(h0()), h0()])), h1()])),
         // atomic / possessive
         ("(?>□)", atomic(h0())),
         ("(?>□)□'", cat(vec![atomic(h0()), h1()])),
